@@ -212,6 +212,12 @@ func (e *Exec) recvOp(st *State, x *ssa.UnOp) {
 	if e.eng.tmRecv != nil && e.eng.tmRecv(e, st, x) {
 		return
 	}
+	if ch := e.val(st, x.X); ch.S != "" {
+		// receives are counted wherever they happen (deferred closures included)
+		cnt := e.recvCount(st)
+		st.mem["ghost|recv_count"] = e.sc.define("g.recv_count", e.memSort["ghost|recv_count"],
+			fmt.Sprintf("(store %s %s %s)", cnt, ch.S, e.add(fmt.Sprintf("(select %s %s)", cnt, ch.S), e.sc.idxLit(1))))
+	}
 	el := x.X.Type().Underlying().(*types.Chan).Elem()
 	v := e.freshVal(st, x.Name(), el)
 	if x.CommaOk {
@@ -229,6 +235,7 @@ func (e *Exec) sendStmt(st *State, x *ssa.Send) {
 }
 
 func (e *Exec) goStmt(st *State, x *ssa.Go) {
+	e.countCall(st, "go")
 	if e.eng.tmGo != nil {
 		e.eng.tmGo(e, st, x)
 	}
@@ -248,6 +255,22 @@ func (e *Exec) selectStmt(st *State, x *ssa.Select) {
 		vals = append(vals, e.freshVal(st, fmt.Sprintf("%s.r%d", x.Name(), i), tup.At(i).Type()))
 	}
 	e.set(st, x, Val{T: x.Type(), Tup: vals})
+	// ghost accounting of the communication that the chosen case performs
+	if e.curFn == e.fn {
+		for i, sst := range x.States {
+			ch := e.val(st, sst.Chan)
+			if ch.S == "" {
+				continue
+			}
+			chosen := eq(idx, e.sc.idxLit(int64(i)))
+			if sst.Dir == types.SendOnly {
+				cnt := e.sendCount(st)
+				st.mem["ghost|send_count"] = e.sc.define("g.send_count", e.memSort["ghost|send_count"],
+					ite(chosen, fmt.Sprintf("(store %s %s %s)", cnt, ch.S, e.add(fmt.Sprintf("(select %s %s)", cnt, ch.S), e.sc.idxLit(1))), cnt))
+			}
+			// receives chosen by a select are not counted (recvd() counts plain receives only)
+		}
+	}
 	if e.eng.tmSelect != nil {
 		e.eng.tmSelect(e, st, x, idx)
 	}
@@ -292,6 +315,8 @@ func (e *Exec) call(fn *ssa.Function, fc *FuncContract, st *State, x *ssa.Call) 
 		} else if x.Call.IsInvoke() {
 			e.recordRet(st, x.Call.Method.Name(), x)
 			e.recordRet(st, qualName(&x.Call), x)
+		} else if prm, ok := x.Call.Value.(*ssa.Parameter); ok {
+			e.recordRet(st, prm.Name(), x)
 		}
 	}
 	return cont, ex
@@ -355,7 +380,10 @@ func (e *Exec) doCall(fn *ssa.Function, fc *FuncContract, st *State, cc *ssa.Cal
 		args = append(append([]Val(nil), args...))
 	}
 	if callee == nil {
-		// dynamic function value
+		// dynamic function value (counted under the name of the parameter / variable holding it)
+		if prm, ok := cc.Value.(*ssa.Parameter); ok {
+			e.countCall(st, prm.Name())
+		}
 		e.havocForCall(st, nil, cc, args)
 		e.libUsed["dynamic-call"] = true
 		e.setResult(st, dst, e.freshVal(st, "dyn", resT))
@@ -740,8 +768,8 @@ func (e *Exec) appendVals(st *State, elem types.Type, s, t Val, tIsString bool, 
 		start := e.sc.define("appstart", idx, e.add(soff, slen))
 		e.assume(st, fmt.Sprintf("(forall ((k %s)) (! (=> %s (= (select %s k) (select %s k))) :pattern ((select %s k))))",
 			idx, e.lt("k", start), na, oldArr, na))
-		e.assume(st, fmt.Sprintf("(forall ((k %s)) (! (=> (and %s %s) (= (select %s %s) (select %s %s))) :pattern ((select %s %s))))",
-			idx, e.le(e.sc.idxLit(0), "k"), e.lt("k", tlen), na, e.add(start, "k"), tarr, e.add(toff, "k"), na, e.add(start, "k")))
+		e.assume(st, fmt.Sprintf("(forall ((k %s)) (! (=> (and %s %s) (= (select %s %s) (select %s %s))) :pattern ((select %s %s)) :pattern ((select %s %s))))",
+			idx, e.le(e.sc.idxLit(0), "k"), e.lt("k", tlen), na, e.add(start, "k"), tarr, e.add(toff, "k"), na, e.add(start, "k"), tarr, e.add(toff, "k")))
 		newArr = na
 	}
 	m = e.memGet(st, k, srt)
